@@ -266,7 +266,8 @@ func c10Specs(thorough bool) []c10Case {
 	bins := [][]byte{[]byte("attached text\r\n"), c12Bin, {}, []byte("x")}
 	names := []string{"a.txt", "a b.txt", "ä.txt", "a;b.txt", "a=b.txt", "report-2024.pdf",
 		"очень-длинное-имя-файла-с-отчётом-за-год.txt", "日本語のとても長いファイル名のテストです資料.pdf", repeatTo("long-ascii-file-name-", 90) + ".bin",
-		"ünï cödé with blanks and (parens) & more.dat", "semi;colon=equals and, comma.txt", "name.with.many.dots.tar.gz", "UPPER lower 123.TXT", "tab\tname.txt", "percent%20name.txt", "'single' quotes.txt"}
+		"ünï cödé with blanks and (parens) & more.dat", "semi;colon=equals and, comma.txt", "name.with.many.dots.tar.gz", "UPPER lower 123.TXT", "tab\tname.txt", "percent%20name.txt", "'single' quotes.txt",
+		" leading blank.txt", "trailing blank.txt ", "  blanks on both sides  ", "non-breaking space at the end.txt\u00a0", "\u3000ideographic space first.txt", "ünï trailing blank "}
 	subjects := []string{"plain subject", "sübject with ümlaut", repeatTo("eighty character subject ", 80), "comma, in subject", "Re: [list] something?",
 		repeatTo("длинная тема письма ", 150), "tab\there", "trailing blank ", "\"quoted\" subject", "=?looks?like?="}
 	dnames := []string{"", "Plain Name", "Ünï Näme", repeatTo("Long Name ", 80), "Last, First", repeatTo("Очень Длинное Имя ", 120), "O'Brien \"Bob\"", "back\\slash"}
@@ -426,7 +427,7 @@ func init() {
 	vf.Register(&vf.Check{
 		ID: "C10", Title: "render → parse → render preserves the message",
 		Run: func(r *vf.Run) {
-			r.SetRule("builder programs inside the parser's feature set: body text/plain with optional text/html alternative × 0..2 attachments × 0..2 embeds × message encoding {QP, base64, 8bit, 7bit} × per-part encodings × 6 text contents ('=', dots, UTF-8, long lines, LF-only, no final newline) plus every body part empty / one byte / a bare line break in every structure × 4 file contents × 6 file names (blank, non-ASCII, ';', '=') × every combination of Content-ID / description / media-type option on attachments and embeds × 5 subjects × 5 display names (RFC 2047, comma, 80 chars); each is rendered, the rendering is checked with the independent reader (precondition), parsed with EMLToMsgFromReader, compared with the model through the Msg getters, rendered again and compared again through the independent reader; distinct by program")
+			r.SetRule("builder programs inside the parser's feature set: body text/plain with optional text/html alternative × 0..2 attachments × 0..2 embeds × message encoding {QP, base64, 8bit, 7bit} × per-part encodings × 6 text contents ('=', dots, UTF-8, long lines, LF-only, no final newline) plus every body part empty / one byte / a bare line break in every structure × 4 file contents × 22 file names (inner / leading / trailing blanks and Unicode spaces, non-ASCII, ';', '=') × every combination of Content-ID / description / media-type option on attachments and embeds × 5 subjects × 5 display names (RFC 2047, comma, 80 chars); each is rendered, the rendering is checked with the independent reader (precondition), parsed with EMLToMsgFromReader, compared with the model through the Msg getters, rendered again and compared again through the independent reader; distinct by program")
 			r.Assume("messages whose first rendering is already wrong are C01's business and skipped here", "the parser may choose other transfer encodings on re-rendering; contents are compared decoded (QP text modulo LF->CRLF)")
 			cases := c10Specs(r.Thorough)
 			r.Extra("programs", len(cases))
